@@ -529,6 +529,38 @@ func (c *Ctx) c05Probes(s *c05Set) {
 			c.Probe("match_noise", fmt.Sprintf("%s s0=%d s1=%d", s.name, s0, s1), "C05-scale-matching-multiplies-by-uncentred-representative", detail)
 		}
 
+		// --- match_decode: the contract of MatchScalesAndLevel on real ciphertexts (Lean: C05.match_contract):
+		// both end with THE SAME recorded scale, at the common level, and decode to what they held before
+		for k := 0; k < 3; k++ {
+			s0, s1 := c.c05Scale(t), c.c05Scale(t)
+			la, lb := L, L
+			if k == 1 && L > 0 {
+				lb = L - 1
+			}
+			r0, r1 := c05Match(s0, s1, t)
+			nbm := float64(s.logN) + 7 + lmax(l2(float64(r0)), l2(float64(r1))) + 1
+			if nbm+s.lt+3 > s.logQ[min(la, lb)] {
+				c.Count("match-decode-budget-skip")
+				continue
+			}
+			a, b := c.c05NewCt(s, la, s0), c.c05NewCt(s, lb, s1)
+			detail := ""
+			st := Try(func() string { ev.MatchScalesAndLevel(a.ct, b.ct); return "ok" })
+			switch {
+			case st != "ok":
+				detail = st
+			case a.ct.Scale.Cmp(b.ct.Scale) != 0:
+				detail = fmt.Sprintf("scales differ: %d vs %d", a.ct.Scale.Uint64(), b.ct.Scale.Uint64())
+			case a.ct.Level() != min(la, lb) || b.ct.Level() != min(la, lb):
+				detail = fmt.Sprintf("levels %d,%d want %d", a.ct.Level(), b.ct.Level(), min(la, lb))
+			case !eq(s.decodeCt(a.ct), a.want):
+				detail = "first ciphertext no longer decodes to its message at the recorded scale"
+			case !eq(s.decodeCt(b.ct), b.want):
+				detail = "second ciphertext no longer decodes to its message at the recorded scale"
+			}
+			c.Probe("match_decode", fmt.Sprintf("%s s0=%d s1=%d levels=%d,%d", s.name, s0, s1, la, lb), "C05-matchscalesandlevel-contract", detail)
+		}
+
 		// --- errors_not_panics
 		type ecase struct {
 			name string
